@@ -22,6 +22,7 @@ import (
 	"io"
 	"net/http"
 	"os"
+	"strings"
 	"sync"
 	"sync/atomic"
 	"time"
@@ -165,12 +166,18 @@ func buildResponse(ds resolve.DataSource, q Req, level string) *resolve.GraphQLR
 }
 
 type capture struct {
-	buf []byte
+	buf   []byte
+	scrub func()
 }
 
+// Write is the client writer. Before it copies p it lets another, unrelated request run to completion on the
+// same resolver (scrub): arenas released by earlier participants are recycled (the pools are LIFO) and
+// overwritten, so a follower that was handed a buffer which is still owned by somebody else observes
+// corrupted bytes here - exactly what a slow client would see in production.
 func (c *capture) Write(p []byte) (int, error) {
-	// keep a *reference-free* copy and, separately, remember nothing of p: aliasing of shared buffers is
-	// detected by the resolver-side comparison below (bytes re-read after arenas were recycled).
+	if c.scrub != nil {
+		c.scrub()
+	}
 	c.buf = append(c.buf, p...)
 	return len(p), nil
 }
@@ -215,8 +222,13 @@ func runSchedule(s Schedule, evw *bufio.Writer) Result {
 		res.Solo[i] = runSolo(q, s.Level)
 	}
 	ctl := sched.New()
-	ctl.StepWait = 300 * time.Millisecond
-	resolve.VerifHook = ctl.Point
+	ctl.StepWait = 150 * time.Millisecond
+	// other checks add hook points of their own (ld.*, sub.*, ...): this driver only knows sfi.* / sfs.*
+	resolve.VerifHook = func(point string, a, b uint64) {
+		if strings.HasPrefix(point, "sfi.") || strings.HasPrefix(point, "sfs.") {
+			ctl.Point(point, a, b)
+		}
+	}
 	defer func() { resolve.VerifHook = nil }()
 	calls := make([]int32, n)
 	mu := &sync.Mutex{}
@@ -226,6 +238,22 @@ func runSchedule(s Schedule, evw *bufio.Writer) Result {
 	resolver := resolve.New(rctx, resolve.ResolverOptions{MaxConcurrency: 16})
 	cancels := make([]context.CancelFunc, n)
 	outs := make([]string, n)
+	// scrub: an unrelated request (other operation, same request id => same arena pools) executed by an
+	// unregistered goroutine (hook points do not park it)
+	scrub := func() {
+		done := make(chan struct{})
+		go func() {
+			defer close(done)
+			defer func() { _ = recover() }()
+			q := Req{Key: 77, Vars: 7, Hdr: 7, Op: "mutation", Work: "ok"}
+			rc := newCtx(context.Background(), 0, q, s.Level)
+			rc.Request.ID = 1001
+			rc.ExecutionOptions.DisableInboundRequestDeduplication = true
+			rc.ExecutionOptions.DisableSubgraphRequestDeduplication = true
+			_, _ = resolver.ArenaResolveGraphQLResponse(rc, buildResponse(ds, q, s.Level), &capture{})
+		}()
+		<-done
+	}
 	var panicked atomic.Value
 	for i := range s.Reqs {
 		i := i
@@ -242,7 +270,7 @@ func runSchedule(s Schedule, evw *bufio.Writer) Result {
 					outs[i] = "panic:" + fmt.Sprint(p)
 				}
 			}()
-			w := &capture{}
+			w := &capture{scrub: scrub}
 			_, err := resolver.ArenaResolveGraphQLResponse(rc, resp, w)
 			if err != nil {
 				outs[i] = "err:" + err.Error()
@@ -303,13 +331,15 @@ func runSchedule(s Schedule, evw *bufio.Writer) Result {
 			continue
 		}
 		o, _ := ctl.Step(st.R)
-		switch o {
-		case sched.Blocked, sched.NotReady:
-			res.Unrealised++
-		}
 		flush()
 		for i := range s.Reqs {
 			noteReturn(i)
+		}
+		if o == sched.Blocked || o == sched.NotReady {
+			// the code cannot follow the planned schedule from here on: open all gates (drain) and
+			// validate what it actually did
+			res.Unrealised++
+			break
 		}
 	}
 	// drain: open all gates, everyone must return
